@@ -43,6 +43,21 @@ def run_property(pid, seed, tier):
         rel['cases'] = dict(grammars=len(s['cases']),
                             generator_outcomes=_count(v[0] for v in s['gen'].values()),
                             rustc_rejected=len(s['compile_fail']), suite_wall_s=s['wall_s'], suite_timing=s['timing'])
+        # how many grammars of the suite satisfy the hypotheses of the property theorems (decided by the model driver)
+        cls = {}
+        for c in s['cases']:
+            v = s['model'].get((c['id'], -1))
+            if v and v[0] == 'CLASS':
+                fam = next((t for t in c['tags'] if t in ('leftrec', 'memo', 'hooks', 'mix', 'ws', 'multibyte', 'incl', 'probe', 'corpus', 'spell')), 'other')
+                for kv in v[1:]:
+                    k, _, b = kv.partition('=')
+                    d = cls.setdefault(fam, {})
+                    d[k] = d.get(k, 0) + (1 if b == 'true' else 0)
+                    d['grammars'] = d.get('grammars', 0) + (1 if k == 'wf' else 0)
+        rel['cases']['theorem_hypotheses_met'] = dict(
+            legend='per family: grammars, and how many of them have no @leftrec rule (C01_sound …), no @memoize/@leftrec rule (C10_furthest …), '
+                   'pass wfCheck (C01_terminates), are in LROk (C01_sound_leftrec, C05_transparent_with_leftrec, C07_result_is_the_growth), pass RecFirst with flat levels (C10_no_sentinel)',
+            families=cls)
         expected = sum(len(c['inputs']) for c in s['cases'])
         seen = sum(1 for k in s['impl'])
         if expected == 0 or seen < 0.6 * expected:
